@@ -123,8 +123,20 @@ def run_case(case):
     try:
         rx = make_spidev_radio(L.FakeBLE, R)
         rx.__enter__()
-        for _ in range(case["hops"]):
-            rx.hop_channel()
+        freqs = (2, 26, 80)
+
+        def tune(radio, how):
+            # reach BLE channel index case["hops"] either by hopping or by assigning the channel attribute
+            # (after a drawn number of hops, so that the assignment really changes the frequency)
+            if how and how[0] == "assign":
+                for _ in range(how[1]):
+                    radio.hop_channel()
+                radio.channel = freqs[case["hops"] % 3]
+            else:
+                for _ in range(case["hops"]):
+                    radio.hop_channel()
+
+        tune(rx, case.get("rx_tune"))
         rx.listen = True
         sim.advance(1 * MS)
         rfch = R.reg[5]
@@ -135,8 +147,7 @@ def run_case(case):
             T = Chip(sim, med, "T")
             tx = make_spidev_radio(L.FakeBLE, T)
             tx.__enter__()
-            for _ in range(case["hops"]):
-                tx.hop_channel()
+            tune(tx, case.get("tx_tune"))
             tx.mac = MAC
         else:
             X = Chip(sim, med, "X")
@@ -291,7 +302,9 @@ def _rt_strategy():
                       st.binary(max_size=6).map(lambda b: {"b": b.hex()}))
     pkt = st.fixed_dictionaries({"name": namev, "show_pa": st.booleans(), "pa": st.sampled_from([-18, -12, -6, 0]),
                                  "items": st.lists(_items_strategy(st), min_size=0, max_size=3)})
-    return st.fixed_dictionaries({"kind": st.just("rt"), "hops": st.integers(0, 2), "packets": st.lists(pkt, min_size=1, max_size=3)})
+    tune = st.one_of(st.none(), st.none(), st.tuples(st.just("assign"), st.integers(0, 2)).map(list))
+    return st.fixed_dictionaries({"kind": st.just("rt"), "hops": st.integers(0, 2), "rx_tune": tune, "tx_tune": tune,
+                                  "packets": st.lists(pkt, min_size=1, max_size=3)})
 
 
 def ad_from_item(it):
@@ -323,7 +336,9 @@ def _enc_strategy():
         return {"mac": draw(st.binary(min_size=6, max_size=6)).hex(), "ads": [[t, bytes(d).hex()] for t, d in ads],
                 "bad_crc": draw(st.integers(0, 9)) == 0}
 
-    return st.fixed_dictionaries({"kind": st.just("enc"), "hops": st.integers(0, 2), "packets": st.lists(pkt(), min_size=1, max_size=3)})
+    tune = st.one_of(st.none(), st.none(), st.tuples(st.just("assign"), st.integers(0, 2)).map(list))
+    return st.fixed_dictionaries({"kind": st.just("enc"), "hops": st.integers(0, 2), "rx_tune": tune,
+                                  "packets": st.lists(pkt(), min_size=1, max_size=3)})
 
 
 def _adv_strategy():
